@@ -87,7 +87,7 @@ func loadWith(h *hist, L *ipfslog.IPFSLog, loader int, o *loadOpts) (*ipfslog.IP
 		if src == nil {
 			src = L.Heads().Slice()
 		}
-		return ipfslog.NewFromEntry(ctx, h.api, id, append([]iface.IPFSLogEntry{}, src...), o.lo, o.efo)
+		return ipfslog.NewFromEntry(ctx, h.api, id, src, o.lo, o.efo) // the caller's own slice, capacity and all
 	default:
 		hs := L.Heads().Slice()
 		return ipfslog.NewFromEntryHash(ctx, h.api, id, hs[0].GetHash(), o.lo, o.fo)
@@ -217,6 +217,13 @@ func H_C10() {
 			vx.Cover("arbitrary-sources")
 		}
 		supplied = hashSet(sources)
+		if vx.Param("ANYSRC", 0) == 1 && vx.Choice("spareCap", 2) == 1 {
+			// the caller's slice has room to spare (a window of a larger buffer): loaders must not write into it
+			roomy := make([]iface.IPFSLogEntry, len(sources), len(sources)+16)
+			copy(roomy, sources)
+			sources = roomy
+			vx.Cover("sources-with-spare-capacity")
+		}
 	case ldEntryHash:
 		supplied = hashSet(heads[:1])
 	}
@@ -242,9 +249,11 @@ func H_C10() {
 	h.api.gated = true
 	opts := newLoadOpts(h, n, conc, nil, 0)
 	opts.sources = sources
+	srcBefore := append([]iface.IPFSLogEntry{}, sources...)
 	vx.ExploreOn()
 	N, err := loadWith(h, L, loader, opts)
 	vx.ExploreOff()
+	vx.Assert("C10", sameSeq(sources, srcBefore), "a load does not modify the slice of starting entries the caller passed")
 	vx.Assert("C10", opts.length != nil && *opts.length == n, "a load does not change the limit the caller passed")
 
 	vx.Assert("C10", err == nil && N != nil, "a length-limited load of a fully stored log succeeds")
